@@ -696,17 +696,52 @@ impl HashColumn {
 		index: &IndexTable,
 		log: &LogWriter,
 	) -> Result<bool> {
+		Ok(Self::find_partial_key_with_address(key, address, index, log)?.is_some())
+	}
+
+	fn find_partial_key_with_address(
+		key: &Key,
+		address: Address,
+		index: &IndexTable,
+		log: &LogWriter,
+	) -> Result<Option<usize>> {
 		let (mut existing_entry, mut sub_index) = index.get(key, 0, log)?;
 		while !existing_entry.is_empty() {
 			let existing_address = existing_entry.address(index.id.index_bits());
 			if existing_address == address {
-				return Ok(true)
+				return Ok(Some(sub_index))
 			}
 			let (next_entry, next_index) = index.get(key, sub_index + 1, log)?;
 			existing_entry = next_entry;
 			sub_index = next_index;
 		}
-		Ok(false)
+		Ok(None)
+	}
+
+	// While an index is being reindexed a key has an entry in every table its chunk was copied
+	// to. When the entry found in `found` is removed or re-pointed the copies have to go as well,
+	// or they keep pointing at the freed slot and are carried over by the next batch.
+	fn remove_from_other_indexes(
+		key: &Key,
+		address: Address,
+		found: &IndexTable,
+		tables: &Tables,
+		reindex: &Reindex,
+		log: &mut LogWriter,
+	) -> Result<()> {
+		let queued = reindex
+			.queue
+			.iter()
+			.filter_map(|e| if let ReindexEntry::Index(t) = e { Some(t) } else { None });
+		for index in std::iter::once(&tables.index).chain(queued) {
+			if index.id == found.id {
+				continue
+			}
+			if let Some(sub_index) = Self::find_partial_key_with_address(key, address, index, log)? {
+				index.write_remove_plan(key, sub_index, log)?;
+			}
+		}
+		Ok(())
 	}
 
 	fn search_all_indexes<'a>(
@@ -740,7 +775,7 @@ impl HashColumn {
 		let existing = Self::search_all_indexes(change.key(), &tables, &reindex, log)?;
 		if let Some((table, sub_index, existing_address)) = existing {
 			let (outcome, unindexed) =
-				self.write_plan_existing(&tables, change, log, table, sub_index, existing_address)?;
+				self.write_plan_existing(&tables, &reindex, change, log, table, sub_index, existing_address)?;
 			let Some(address) = unindexed else { return Ok(outcome) };
 			// The value moved to another address and the chunk of the current index has no room
 			// for its entry. Grow the index until it fits, same as for a new key.
@@ -788,6 +823,7 @@ impl HashColumn {
 	fn write_plan_existing(
 		&self,
 		tables: &Tables,
+		reindex: &Reindex,
 		change: &Operation<Key, RcValue>,
 		log: &mut LogWriter,
 		index: &IndexTable,
@@ -811,6 +847,7 @@ impl HashColumn {
 			(None, Some(value_address)) => {
 				// If it was found in an older index we just insert a new entry. Reindex won't
 				// overwrite it.
+				Self::remove_from_other_indexes(key, existing_address, index, tables, reindex, log)?;
 				let in_current = index.id == tables.index.id;
 				if !in_current {
 					// The entry in the older index points at the slot that was just freed: drop it,
@@ -827,6 +864,7 @@ impl HashColumn {
 			(None, None) => {
 				log::trace!(target: "parity-db", "{}: Removing from index {}", tables.index.id, hex(key));
 				index.write_remove_plan(key, sub_index, log)?;
+				Self::remove_from_other_indexes(key, existing_address, index, tables, reindex, log)?;
 				Ok((PlanOutcome::Written, None))
 			},
 		}
